@@ -262,7 +262,7 @@ run_arr!(run_a1, arr1, 1); run_arr!(run_a16, arr16, 16); run_arr!(run_a64, arr64
 run_arr!(run_a4096, arr4096, 4096); run_arr!(run_a4097, arr4097, 4097); run_arr!(run_a8193, arr8193, 8193);
 
 #[derive(Clone, Debug)]
-pub struct Run { pub obs: Vec<Obs>, pub clone_obs: Vec<Obs>, pub releases: Vec<(usize, i64)>, pub final_vmlck: Option<usize>, pub mlock_calls: i32, pub signal: i32, pub errors: Vec<String> }
+pub struct Run { pub obs: Vec<Obs>, pub clone_obs: Vec<Obs>, pub clone_step: Vec<usize>, pub releases: Vec<(usize, i64)>, pub final_vmlck: Option<usize>, pub mlock_calls: i32, pub signal: i32, pub errors: Vec<String> }
 
 fn parse_obs(f: &[&str]) -> Obs {
     let g = |i: usize| f.get(i).copied().unwrap_or("0");
@@ -290,10 +290,10 @@ pub fn run_sequence(container: usize, len: usize, ops: &[Op], fail_from: i32) ->
     let mut st = 0;
     unsafe { libc::waitpid(pid, &mut st, 0); }
     let signal = if libc::WIFSIGNALED(st) { libc::WTERMSIG(st) } else { 0 };
-    let mut run = Run { obs: vec![], clone_obs: vec![], releases: vec![], final_vmlck: None, mlock_calls: -1, signal, errors: vec![] };
+    let mut run = Run { obs: vec![], clone_obs: vec![], clone_step: vec![], releases: vec![], final_vmlck: None, mlock_calls: -1, signal, errors: vec![] };
     for l in text.lines() {
         let f: Vec<&str> = l.split(' ').collect();
-        match f[0] { "O" => run.obs.push(parse_obs(&f)), "C" => run.clone_obs.push(parse_obs(&f)),
+        match f[0] { "O" => run.obs.push(parse_obs(&f)), "C" => { run.clone_step.push(run.obs.len().saturating_sub(1)); run.clone_obs.push(parse_obs(&f)); }
             "R" => run.releases.push((f[1].parse().unwrap_or(0), f[2].parse().unwrap_or(0))),
             "F" => { run.final_vmlck = f[1].parse().ok(); run.mlock_calls = f[2].parse().unwrap_or(-1); }
             "E" => run.errors.push(l[2..].to_string()), _ => {} }
@@ -365,7 +365,16 @@ pub fn run_c14(out: &mut Out, tier: &str, _seed: u64) {
                 let (wr, ww) = match o.pm { 0 => (0, 0), 1 => (0, 11), _ => (11, 11) };
                 if o.probe_read != wr || o.probe_write != ww { out.hit("protected.access-probe-differs", format!("{}: read -> signal {}, write -> signal {} (expected {}/{}), length {}", step, o.probe_read, o.probe_write, wr, ww, o.len), rp.clone()); }
             }
-            toks.push(Tok::L(vec![Tok::I(o.first as i64), Tok::I(o.last as i64), Tok::I(o.before as i64), Tok::I(o.vmlck_pages as i64), Tok::I(o.len as i64)]));
+            // every clone alive after this step: its pages carry the rights its own type says
+            let mut clone_rights: Vec<Tok> = vec![];
+            for (ci, c) in run.clone_obs.iter().enumerate() {
+                if run.clone_step[ci] != k || c.len == 0 { continue; }
+                let want = expected_perm(c.pm);
+                if c.first != want || c.last != want { out.hit("protected.clone-rights-differ", format!("{}: a clone whose type says {} has first/last data page {}/{} (length {})", step, want, c.first, c.last, c.len), rp.clone()); }
+                if c.before != 0 || !c.after_guard { out.hit("protected.clone-guard-missing", format!("{} length {}", step, c.len), rp.clone()); }
+                clone_rights.push(Tok::I(c.first as i64));
+            }
+            toks.push(Tok::L(vec![Tok::I(o.first as i64), Tok::I(o.last as i64), Tok::I(o.before as i64), Tok::I(o.vmlck_pages as i64), Tok::I(o.len as i64), Tok::L(clone_rights)]));
         }
         if run.signal == 0 { if let Some(v) = run.final_vmlck { if v != 0 { out.hit("protected.residual-locked-pages", format!("{} pages still locked after the last drop (length {})", v, len), rp.clone()); } } }
         // model correspondence on a slice of the plan (HeapBytes, no clone/resize panics)
@@ -430,17 +439,21 @@ pub fn run_c15(out: &mut Out, tier: &str, _seed: u64) {
 pub fn run_c19(out: &mut Out, tier: &str, _seed: u64) {
     let thorough = tier == "thorough";
     if !mlock_set(0) { out.hit("harness.interposer-missing", "LD_PRELOAD interposer not loaded".into(), json!({})); return; }
-    let depth = if thorough { 4 } else { 2 };
-    let lens: Vec<usize> = vec![0, 1, 64, PAGE, PAGE + 1];
+    let depth = if thorough { 5 } else { 3 };
     let hb = sequences(depth, true, true, false);
-    for len in lens.iter() {
-        for ops in hb.iter() {
-            let base = run_sequence(0, *len, ops, 0);
+    let ar = sequences(depth, false, false, false);
+    let mut plan: Vec<(usize, usize, &Vec<Op>)> = vec![];
+    for len in [0usize, 1, 64, PAGE, PAGE + 1] { for ops in hb.iter() { plan.push((0, len, ops)); } }
+    for n in [64usize, 4097] { for ops in ar.iter() { plan.push((n, n, ops)); } }
+    {
+        for (container, len, ops) in plan.iter() {
+            let (container, len, ops) = (*container, len, *ops);
+            let base = run_sequence(container, *len, ops, 0);
             let calls = base.mlock_calls.max(1);
             for k in 1..=calls {
-                let run = run_sequence(0, *len, ops, k);
+                let run = run_sequence(container, *len, ops, k);
                 out.search_evaluations += 1;
-                let rp = json!({"op":"protected.mlock-refused","container":"HeapBytes","len":len,"ops":seq_names(ops),"refuse_from_call":k});
+                let rp = json!({"op":"protected.mlock-refused","container": if container == 0 { "HeapBytes".to_string() } else { format!("HeapByteArray<{}>", container) },"len":len,"ops":seq_names(ops),"refuse_from_call":k});
                 if run.signal != 0 { out.hit("protected.mlock-refused.aborts", format!("signal {} (refusing from call {}), length {}", run.signal, k, len), rp.clone()); continue; }
                 for (idx, o) in run.obs.iter().enumerate() {
                     let result_returning = matches!(o.op.as_str(), "create" | "mlock" | "munlock" | "mprotect_readonly" | "mprotect_readwrite" | "mprotect_noaccess");
@@ -449,7 +462,7 @@ pub fn run_c19(out: &mut Out, tier: &str, _seed: u64) {
                 for c in run.clone_obs.iter() { if c.len > 0 && (c.first != expected_perm(c.pm) || c.last != expected_perm(c.pm)) { out.hit("protected.mlock-refused.earlier-region-damaged", format!("length {}", len), rp.clone()); } }
                 if let Some(v) = run.final_vmlck { if v != 0 { out.hit("protected.mlock-refused.residual-locked-pages", format!("{} pages locked after cleanup (refusing from call {})", v, k), rp.clone()); } }
                 for (size, nz) in run.releases.iter() { if *nz > 0 { out.hit("protected.mlock-refused.released-unwiped", format!("{} bytes, {} non-zero (refusing from call {})", size, nz, k), rp.clone()); } }
-                if ops.len() <= 1 {
+                if ops.len() <= 1 && container == 0 {
                     let classes: Vec<Tok> = run.obs.iter().map(|o| Tok::I(match o.result.as_str() { "ok" => 0, "err" => 1, _ => 2 })).collect();
                     out.case("protected.refusal", &[i(*len), Tok::L(ops.iter().map(|o| Tok::I(o.code())).collect()), i(k as usize)], &Outcome::Ok(vec![Tok::L(classes)]), true);
                 }
